@@ -140,6 +140,22 @@ func VH_C12_run() {
 		return &conversion.Response{}, nil
 	}
 
+	// another execution may be in progress (the same hook in a second queue, or a hook
+	// whose name continues this one's): its temporary files are in the same directory
+	var foreign []string
+	if zz.Bool("another_execution_in_progress") {
+		safe := h.SafeName()
+		foreign = []string{
+			filepath.Join(tmp, "hook-"+safe+"-binding-context-other.json"),
+			filepath.Join(tmp, "hook-"+safe+"-metrics-other.json"),
+			filepath.Join(tmp, safe+"-object-patch-other"),
+			filepath.Join(tmp, "hook-"+safe+"-nodes-admission-response-other.json"),
+		}
+		for _, f := range foreign {
+			zz.Assume(os.WriteFile(f, []byte("theirs"), 0o644) == nil)
+		}
+	}
+
 	res, runErr := h.Run(htypes.Schedule, ctxs, map[string]string{})
 
 	zz.Assert(ran == 1, "hook_process_started_once")
@@ -155,6 +171,10 @@ func VH_C12_run() {
 	// whatever the outcome, the temporary files are gone
 	for i := 0; i < 5; i++ {
 		zz.Assert(files[i] != "" && !vhFileExists(files[i]), "temporary_files_deleted_after_execution")
+	}
+	for _, f := range foreign {
+		d, err := os.ReadFile(f)
+		zz.Assert(err == nil && string(d) == "theirs", "files_of_other_executions_are_untouched")
 	}
 	os.RemoveAll(tmp)
 	zz.Reach("end")
